@@ -355,7 +355,7 @@ func c4OpenReturnsCombined(c *Ctx, rule string) {
 			if !ok || x.Index != 1 {
 				return nil
 			}
-			if cl, isC := x.Tuple.(*ssa.Call); isC && IsCallTo(cl, "(*go.uber.org/zap.sinkRegistry).newSink") {
+			if cl, isC := x.Tuple.(*ssa.Call); isC && isNewSink(cl) {
 				return []ConcAlt{{Ev: "opened", Nils: map[ssa.Value]bool{x: true}}, {Ev: "failed", Nils: map[ssa.Value]bool{x: false}}}
 			}
 			return nil
